@@ -321,7 +321,8 @@ class RecvWorld(World):
             self.msgs.append(msg_spec(outcome="never", probe=True))
         n = len(self.msgs)
         self.n = n
-        self.A = sc.get("A")
+        self.A_cfg = sc.get("A")  # what the Receiver is given; None, 0 and negative values all mean "no limit"
+        self.A = self.A_cfg if (self.A_cfg is not None and self.A_cfg > 0) else None
         self.P = sc.get("P", 0)
         self.N = sc.get("N")
         self.W = sc.get("W")
@@ -489,7 +490,7 @@ class RecvWorld(World):
             broker,
             executor=self.executor,
             validate_params=sc.get("validate", True),
-            max_async_tasks=self.A,
+            max_async_tasks=self.A_cfg,
             max_prefetch=self.P,
             propagate_exceptions=sc.get("propagate", True),
             run_startup=False,
@@ -682,8 +683,15 @@ class RecvWorld(World):
         return ack
 
     def _on_ret(self) -> None:
-        self.ret = True
-        self.emit("RET")
+        if not self.ret:
+            self.ret = True
+            self.emit("RET")
+
+    def after_step(self) -> None:
+        super().after_step()
+        # listen() has returned - whether or not it told its on_exit callback
+        if not self.ret and self.listen_task.done() and not self.listen_task.cancelled() and self.listen_task.exception() is None and self.sc.get("entry") != "api":
+            self._on_ret()
 
     # ------------------------------------------------------------------ helpers
     def idx_of(self, task_id: str) -> int:
